@@ -49,11 +49,13 @@ if [ "$MODE" = checks ]; then
   fi
   export VERIF_REPO=$R VERIF_NO_EVIDENCE=1 VERIF_THREADS=${MUT_THREADS:-4}
   OUT=$DIR/stage2.$K.tsv; touch $OUT
-  cat $DIR/stage1.*.tsv | grep "survives-tests" | cut -f1 | sort > $W/todo
+  # x86 mutants first, the NEON ones (only C12's emulation can see them) last
+  cat $DIR/stage1.*.tsv | grep "survives-tests$" | cut -f1 | sort > $W/todo
+  cat $DIR/stage1.*.tsv | grep "survives-tests(" | cut -f1 | sort >> $W/todo
   i=0
   while read -r id; do
     i=$((i+1)); [ $((i % N)) -eq $K ] || continue
-    grep -q "^$id	" $OUT && continue
+    cat $DIR/stage2.*.tsv | grep -q "^$id	" && continue
     row=$(grep "^$id	" $DIR/index.tsv); file=$(echo "$row" | cut -f2); line=$(echo "$row" | cut -f3)
     git -C $R checkout -q -- .
     git -C $R apply $DIR/$id.diff || { echo -e "$id\tnoapply" >> $OUT; continue; }
